@@ -6,7 +6,7 @@ P = {
  "C01": ("bounded-exhaustive enumeration of the statement grammar (every opcode/alias, operand boundary values, label bindings, multi-block layouts) on the real parser+assembler, each image compared word-for-word with an independent two-pass reference assembler",
          "exhaustive program enumeration + reference assembler", "programs are bounded (<=3-4 statements over a reduced alphabet beyond single statements); RefAsm is trusted"),
  "C02": ("every single (and, on a subset, double) injected well-formedness fault at every placement over a base family of programs; accept/reject and error kind compared with the reference well-formedness predicate; panics caught",
-         "exhaustive fault-placement enumeration + reference predicate", "fault alphabet and base programs are finite; any one violated condition is accepted as the error kind"),
+         "exhaustive fault-placement enumeration + reference predicate", "fault alphabet and base programs are finite; any one violated condition is accepted as the error kind; 'ignoring case' is read as equality under str::to_uppercase for every cased letter of Unicode (family CASE)"),
  "C03": ("full product of surface-syntax style dimensions over abstract programs rendered to text; parse result compared with the abstract program, spans with the renderer's bookkeeping, and all renderings assembled to one image",
          "exhaustive layout enumeration (metamorphic + reference)", "style dimensions are those of the renderer; label names avoid documented lexer collisions"),
  "C04": ("all strings up to a length bound over an alphabet with one symbol per lexer/escape branch, plus all <=k byte edits of valid programs and literal-size ladders, each parsed under catch_unwind with span checks",
@@ -25,7 +25,7 @@ P = {
          "bounded-exhaustive input enumeration", "strings <=3-4 symbols over a boundary alphabet"),
  "C12": ("every program of the bounded family run under virtual and real traps; halting and faulting runs compared per the property", "paired-run enumeration over a bounded program family", "program family bounded; horizon-ended runs are counted, not judged"),
  "C13": ("explicit-state BFS over histories of run/step/breakpoint/MCR operations on the real simulator, each operation compared with a twin driven only by step_in and the documented stop rules; states deduplicated by an implementation fingerprint",
-         "explicit-state BFS over operation histories + step-wise reference executor", "4 programs; depth <=4 quick/6 thorough"),
+         "explicit-state BFS over operation histories + step-wise reference executor", "6 programs (+1 deep-recursion program on fixed histories); 24 operations; depth <=5 quick/8 thorough"),
  "C14": ("paired strict/non-strict runs from identical Known-initialised machines over the bounded program family and targeted jump/IO/blkw/stack programs; plus fully-initialised machines", "paired-run enumeration", "bounded program family"),
  "C15": ("per-bit truth tables for AND/NOT (complete) and all completions of uninitialised bits over mask/base grids for ADD/SUB/AND/NOT; fully-initialised operands over boundary x all (quick) or all 2^32 pairs (thorough)",
          "exhaustive completion enumeration through hook H1", "mask positions {0,1,2,14,15}"),
@@ -35,7 +35,7 @@ P = {
  "C18": ("as C17 for the text format, plus every source text of <=3 tokens over a hostile-character alphabet", "exhaustive object-family + hostile-source enumeration", "family bounded"),
  "C19": ("all short byte strings after the header, every truncation / byte / field edit of valid blobs and every line edit of valid text files, each pushed through read, re-serialize, link and load under catch_unwind",
          "exhaustive short-input + k-edit enumeration", "edits <=1 quick / 2 thorough on a base set"),
- "C20": ("all ordered pairs, all triples in all orders and bracketings (and quadruples, thorough) of a link family, against a reference linker and against each other", "exhaustive order/bracketing enumeration + reference linker", "family of ~40 files"),
+ "C20": ("all ordered pairs, all triples in all orders and bracketings (and quadruples, thorough) of a link family, against a reference linker and against each other", "exhaustive order/bracketing enumeration + reference linker", "family of ~45 files; labels compared ignoring case = equality under str::to_uppercase for every letter"),
  "C21": ("every placement of .external relative to its uses x debug on/off x direct load / link-then-load in both orders", "exhaustive placement enumeration", "small program family"),
  "C22": ("every ordered pair/triple of debug-symbol files linked; every address's line text and every label span checked against the originating file", "exhaustive link-order enumeration", "family bounded"),
  "C23": ("every label of every generated program queried in 4 spellings plus absent names across all four lookup APIs", "exhaustive query enumeration over generated programs", "ASCII labels (property precondition)"),
@@ -49,7 +49,7 @@ P = {
  "C31": ("grid of seeds x strategies x timer ranges x programs, two independently built simulators compared step by step", "paired-run enumeration over a configuration grid", "grid is finite"),
  "C32": ("explicit-state BFS over add/remove/set/mmap/munmap/read/write histories with recording devices against a port-table reference; fingerprint is the real handler's Debug state", "explicit-state BFS + reference port table", "depth <=4 quick/5 thorough"),
  "C33": ("every pattern of <=k lock holds (by the harness holding the real RwLock) over instruction boundaries (quick) or individual lock attempts via hook H3 (thorough) of echo programs; all 2^n patterns for single-byte programs", "deviation-bounded schedule enumeration over try-lock answers", "other thread only holds/appends/drains"),
- "C34": ("every sample sequence (hook H2 branches over the whole range at each sample) for all small ranges and exact counts, with enable/disable/reset deviations, against a countdown reference", "exhaustive environment-answer enumeration through hook H2", "ranges within 0..=4, exact n<=8"),
+ "C34": ("every sample sequence (hook H2 branches over the whole range at each sample) for all small ranges and exact counts, with enable/disable/reset deviations, against a countdown reference", "exhaustive environment-answer enumeration through hook H2", "ranges within 0..=4, exact n<=8; one supplementary sub-check (the timer on its own generator, unseeded and under 3 seeds, 4000 polls per range) is a sound membership test on sampled draws, not an exhaustive exploration, and is counted separately in the evidence"),
  "C35": ("complete: every i16 and u16 for every N in 1..=16 through new and new_trunc", "complete enumeration", "none beyond the arithmetic reference"),
  "C36": ("every statement obtained by parsing the generated programs printed and re-parsed, compared through a span-insensitive projection", "exhaustive statement enumeration", "string literals restricted as the property states"),
 }
@@ -75,7 +75,7 @@ def main():
                 "replay_cmd_template": "./check replay {path}",
                 "engine": "lc3mc",
                 "level_claimed": {"category": "model_checking", "text": text, "design_ref": f"DESIGN.md section 4, {pid}; as built: section 9"},
-                "level_note": note + "; the small scope is complemented by enumerated non-initial states (reused / reset simulators, operation histories), flag and entry-point variants, and a scale family at sizes on both sides of the representation thresholds 2^5..2^16 (DESIGN.md 9.5, rounds 2-4) - between thresholds nothing is claimed; real code is executed for every explored case (no separate model), panics judged under overflow-checks",
+                "level_note": note + "; the small scope is complemented by enumerated non-initial states (reused / reset simulators, operation histories), flag and entry-point variants, and a scale family at sizes on both sides of the representation thresholds 2^5..2^16 (DESIGN.md 9.5, rounds 2-4), by alphabets chosen by roles and relations (round 5) and by one step of object life cycle in front of the oracle (reuse after reset / a failed call / a query / a load, registration while running; round 6) - between thresholds nothing is claimed; real code is executed for every explored case (no separate model), panics judged under overflow-checks",
                 "technique": tech,
             })
         else:
